@@ -54,6 +54,10 @@ THEOREMS = [
     'C20.stringStep_fixed_pinned_critical', 'C20.stringStep_critical_pinned_fixed',
     'C20.displacement_lt_rows', 'C20.euler_converged_gradient_lt', 'C20.euler_climb_converged_gradient_lt',
     'C20.relaxPhase_stopped_early', 'C20.relaxPhase_measures_before_last',
+    # where a step places the new images (newα): pinned images at their own arc coordinate, equal spacing in between
+    'C20.linspace_length', 'C20.linspace_first', 'C20.linspace_last', 'C20.linspace_step',
+    'C20.respaceGo_length', 'C20.respaceGo_pinned', 'C20.respaceTargets_length', 'C20.respaceTargets_pinned',
+    'C20.splineRespace_keeps_pinned', 'C20.stringStep_spline_fixed_pinned_critical',
 ]
 PARTIAL = {
     'relaxation_converges_to_saddle': 'convergence of the iterated float/spline relaxation is not a '
@@ -72,9 +76,13 @@ PARTIAL = {
     'climbrate_norm_sq). Not proved: that the iteration reaches such a string, the interior images, Runge-Kutta fixed points '
     'being critical (false in general for large steps); convergence is explored on the implementation against analytically '
     'known minima, saddle and barrier',
-    'step_interior_images': 'the cubic-spline re-spacing of the interior images of a step is scipy code outside the model: '
-    'the model gives the integrated coordinates and the rows the re-spacing must keep (first, last, climbing images; '
-    'the whole path for two images), compared on every step of the operation sequences',
+    'step_interior_images': 'the cubic spline through the integrated images is scipy code outside the model. In the model: '
+    'the integrated coordinates (icoord), their arc coordinates, the arc coordinates at which the new images are placed '
+    '(respaceTargets = the newα handed to interpolate_path, observed on every step and compared exactly) with the theorems '
+    'that pinned images (first, last, climbing) are placed at their own arc coordinate and the others equally spaced in '
+    'between; with an interpolant that returns its knots the pinned rows are therefore kept (splineRespace_keeps_pinned). '
+    'The values of the spline between the knots (interior images) are compared with an independent spline evaluation on '
+    'the oracle side only',
     'gradient_second_order_general': 'second order of the numerical gradient is proved for functions that are cubic '
     'along the coordinate axes (exact error c3 s^2); for general smooth functions it is measured on the implementation '
     '(error ratio on halving the step) on arrays of every leading shape',
@@ -739,16 +747,31 @@ class Runner:
             import io
             h = _h_form(op['h'], op.get('h_as'))
             pos = op.get('call') == 'pos'
+            spied = []
             if kind == 'step':
                 climb = _climb_form(op.get('climb'), op.get('climb_as'))
-                if pos:
-                    args = [None if op.get('hdefault') else h] + ([] if climb is None else [climb])
-                    q = p.step(*args)
-                else:
-                    kw = {} if op.get('hdefault') else {'timestep': h}
-                    if climb is not None:
-                        kw['climbindex'] = climb
-                    q = p.step(**kw)
+                # the arc coordinates step hands to interpolate_path (its `newα`) together with those of the integrated images
+                cls = type(p)
+                orig = cls.interpolate_path
+
+                def spy(self_, arc):
+                    try:
+                        spied.append((np.array(self_.arccoord, dtype=float), np.array(arc, dtype=float)))
+                    except Exception:  # noqa
+                        pass
+                    return orig(self_, arc)
+                cls.interpolate_path = spy
+                try:
+                    if pos:
+                        args = [None if op.get('hdefault') else h] + ([] if climb is None else [climb])
+                        q = p.step(*args)
+                    else:
+                        kw = {} if op.get('hdefault') else {'timestep': h}
+                        if climb is not None:
+                            kw['climbindex'] = climb
+                        q = p.step(**kw)
+                finally:
+                    cls.interpolate_path = orig
             else:
                 vkw = {} if op.get('verbose', False) is None else {'verbose': False}
                 with contextlib.redirect_stdout(io.StringIO()):
@@ -766,6 +789,7 @@ class Runner:
                                     **vkw, **hkw, **({} if op.get('cp') is None else {'climbpoints': op['cp']}))
             res = {'coord': np.array(q.coord, dtype=float), 'type': type(q).__name__,
                    'shares_memory': bool(q is not p and np.shares_memory(q.coord, p.coord)),
+                   'respace': spied[-1] if len(spied) == 1 else None,
                    'same_energyfxn': q.energyfxn is p.energyfxn, 'same_gradientfxn': q.gradientfxn is p.gradientfxn,
                    'same_integratorfxn': q.integratorfxn is p.integratorfxn,
                    'kwargs': dict(q.gradientkwargs)}
@@ -1040,6 +1064,9 @@ class OracleModel:
                 rows[i] = sh.integrate_exact(sh.coord[i], h, tau=[Fraction(t) for t in tau[i]])[0]
         return rows
 
+    def respace(self, climb, alpha):
+        return _respace_targets(climb, alpha)
+
     def ends(self, idx, sh, h, nsteps):
         if sh.n < 2 and nsteps > 0:
             return ('raise',)
@@ -1150,6 +1177,10 @@ class LeanModel:
         keep = set([0, sh.n - 1]) | set(climb)
         return {i: rows[i] for i in sorted(keep)}
 
+    def respace(self, climb, alpha):
+        out = self.d.ask(f'respace {len(climb)} ' + ' '.join(str(c) for c in climb) + (' ' if climb else '') + cm.frs(alpha))
+        return None if out.startswith('err:') else cm.unfrs(out)
+
     def ends(self, idx, sh, h, nsteps):
         if sh.n < 2 and nsteps > 0:
             return ('raise',)
@@ -1180,6 +1211,18 @@ class LeanModel:
         self.map[idx_new] = k
         self.d.ask(f'pcoord {k} {sh_new.n} {self._rows(sh_new.coord)}')
         self._last_new = None
+
+
+def _respace_targets(climb, alpha):
+    """the arc coordinates at which a step places the new images: equally spaced between consecutive pinned images
+    (first, climbing in increasing order, last), exact arithmetic on the arc coordinates handed in."""
+    a = [Fraction(v) for v in alpha]
+    cuts = [0] + list(climb) + [len(a) - 1]
+    out = list(a)
+    for s_, e_ in zip(cuts, cuts[1:]):
+        for i in range(s_, e_ + 1):
+            out[i] = a[s_] + (a[e_] - a[s_]) * Fraction(i - s_, e_ - s_) if e_ > s_ else a[s_]
+    return out
 
 
 def _flat(x):
@@ -1676,6 +1719,19 @@ def _check_step(ctx, report, model, model_kind, runner, idx, before, op, res, ra
                f'from ({before.integ})')
         return
     # rows that the re-spacing must leave where the integrator put them
+    if kind == 'step' and res.get('respace') is not None and before.n >= 2:
+        # where the new images are placed: equal spacing in arc coordinate between consecutive pinned images
+        alpha, newa = res['respace']
+        cl = sorted(set(climb))
+        if len(alpha) == before.n and all(0 < c < before.n - 1 for c in cl) and np.isfinite(alpha).all():
+            want_a = model.respace(cl, alpha.tolist())
+            ctx.stats.case(f'{model_kind}:path-respace-targets', (repr(alpha.tolist()), repr(cl)), nontrivial=before.n >= 3)
+            tol_a = 16 * EPS * max(1.0, float(np.abs(alpha).max()))
+            if want_a is None or newa.shape != alpha.shape or _differs(_flat(newa), want_a, tol_a) is not None:
+                report('path:step:targets', f'{_brief(op)} from coord {before.coord}: the integrated images have arc coordinates '
+                       f'{alpha.tolist()}; interpolate_path was handed {newa.tolist()}, equal spacing between the pinned images '
+                       f'{[0] + cl + [before.n - 1]} is {None if want_a is None else [_fl(v) for v in want_a]}')
+                return
     if kind == 'step':
         _, tau = _geometry(before.coord)
         cond = _tangent_condition(before.coord)
